@@ -116,7 +116,7 @@ fn check_any(input: &AnyInput, sched: &DecSched, ring_bits: u8, ring_start: u32,
     }
     // flat, scheduled
     let mut d = DecompressorOxide::new();
-    let r2 = drive(&mut d, &data, &DriveOpts { flags: zf, mode: BufMode::Flat { cap }, sched, canary: false, max_calls: None, announce: true, flat_start: 0 }, plain_hook)?;
+    let r2 = drive(&mut d, &data, &DriveOpts { flags: zf, mode: BufMode::Flat { cap }, sched, canary: false, max_calls: None, announce: true, flat_start: 0, probe_full_ring: false }, plain_hook)?;
     sound("flat scheduled", &r2, &vf)?;
     if r2.status == TINFLStatus::Failed {
         cx.class(&format!("fail-state:{}", state_name(r2.final_state)));
@@ -128,7 +128,7 @@ fn check_any(input: &AnyInput, sched: &DecSched, ring_bits: u8, ring_start: u32,
     let vr = ref_inflate(&data, &Opts { window: WindowMode::Ring { init: &init, start }, max_out: 8 << 20, ..Opts::fmt(zl) });
     if vr.verdict != Verdict::TooBig {
         let mut d = DecompressorOxide::new();
-        let r3 = drive(&mut d, &data, &DriveOpts { flags: zf, mode: BufMode::Ring { bits, start: ring_start, fill_seed }, sched, canary: false, max_calls: None, announce: true, flat_start: 0 }, plain_hook)?;
+        let r3 = drive(&mut d, &data, &DriveOpts { flags: zf, mode: BufMode::Ring { bits, start: ring_start, fill_seed }, sched, canary: false, max_calls: None, announce: true, flat_start: 0, probe_full_ring: false }, plain_hook)?;
         sound(&format!("ring 2^{bits}"), &r3, &vr)?;
         if r3.status == TINFLStatus::Failed {
             cx.class(&format!("fail-state:{}", state_name(r3.final_state)));
